@@ -1269,6 +1269,10 @@ class Font(BaseObject):
 
     def _layerAddedNotificationCallback(self, notification):
         name = notification.data["name"]
+        if name not in self.layers:
+            # the notification was held and the layer
+            # has been deleted before it was released
+            return
         layer = self.layers[name]
         self._beginSelfLayerNotificationObservation(layer)
 
@@ -1279,6 +1283,10 @@ class Font(BaseObject):
 
     def _layerWillBeDeletedNotificationCallback(self, notification):
         name = notification.data["name"]
+        if name not in self.layers:
+            # the notification was held and is released
+            # after the layer has been deleted
+            return
         layer = self.layers[name]
         self._endSelfLayerNotificationObservation(layer)
 
